@@ -46,6 +46,11 @@ pub struct Sc {
     pub max_write: usize,
     pub max_read: usize,
     pub faulty: bool,
+    /// every n-th read()/write() on a simulated file is interrupted (EINTR) first; 0 = never.
+    /// Never generated: acb installs no signal handlers, so a read or write of a regular file
+    /// cannot return EINTR in a deployment (DESIGN 10); kept for experiments via a replay file.
+    #[serde(default)]
+    pub eintr_every: u32,
     pub runs: Vec<Run>,
 }
 
@@ -188,7 +193,7 @@ pub fn generate(seed: u64, index: u64) -> Sc {
             hash_seed: r.next_u64(),
         });
     }
-    Sc { cal, format, cache, max_write: *r.pick(&[usize::MAX, usize::MAX, 4096, 512, 7]), max_read: *r.pick(&[usize::MAX, usize::MAX, 4096, 512, 7]), faulty, runs }
+    Sc { cal, format, cache, max_write: *r.pick(&[usize::MAX, usize::MAX, 4096, 512, 7]), max_read: *r.pick(&[usize::MAX, usize::MAX, 4096, 512, 7]), faulty, runs, eintr_every: 0 }
 }
 
 fn bucket(n: i64) -> &'static str {
@@ -315,7 +320,7 @@ impl Engine for C13 {
                     net_faults: run.net_faults.clone(),
                     server_today: None,
                     fs_faults: dry_faults,
-                    knobs: Knobs { max_write: sc.max_write, max_read: sc.max_read },
+                    knobs: Knobs { max_write: sc.max_write, max_read: sc.max_read, eintr_every: sc.eintr_every },
                     hash_seed: run.hash_seed,
                 });
                 crate::interpose::with_world(|w| w.fs.disk = saved);
@@ -342,7 +347,7 @@ impl Engine for C13 {
                 net_faults: run.net_faults.clone(),
                 server_today: None,
                 fs_faults: fs_faults.clone(),
-                knobs: Knobs { max_write: sc.max_write, max_read: sc.max_read },
+                knobs: Knobs { max_write: sc.max_write, max_read: sc.max_read, eintr_every: sc.eintr_every },
                 hash_seed: run.hash_seed,
             });
             st.bump("sim.processes");
@@ -354,6 +359,7 @@ impl Engine for C13 {
             }
             st.add("fault.legal_short_writes", obs.proc.short_writes);
             st.add("fault.legal_short_reads", obs.proc.short_reads);
+            st.add("fault.legal_eintr_on_read_or_write", obs.proc.eintrs);
             for rq in &obs.requests {
                 if let Some(f) = &rq.fault {
                     st.bump(&format!("fault.net_{}", f));
@@ -634,6 +640,11 @@ impl Engine for C13 {
             let mut s = sc.clone();
             s.max_write = usize::MAX;
             s.max_read = usize::MAX;
+            c.push(s);
+        }
+        if sc.eintr_every != 0 {
+            let mut s = sc.clone();
+            s.eintr_every = 0;
             c.push(s);
         }
         if sc.cache == CacheKind::Csv {
